@@ -102,6 +102,7 @@ const (
 	ParseCompleteMessageType byte = '1'
 	BindCompleteMessageType  byte = '2'
 	ReadyForQueryMessageType byte = 'Z'
+	SyncMessageType          byte = 'S'
 	RowDescriptionType       byte = 'T'
 	ParameterDescriptionType byte = 't'
 	CommandCompleteType      byte = 'C'
@@ -274,6 +275,8 @@ func (proxy *PgProxy) ProxyClientConnection(ctx context.Context, errCh chan<- ba
 	// default value empty func to avoid != nil check
 	var spanEndFunc = func() {}
 	var timerObserveFunc = func() time.Duration { return 0 }
+	// set after AcraCensor rejected a Parse packet: the rest of that extended query cycle is dropped
+	skipUntilSync := false
 	for {
 		timerObserveFunc()
 		packet.Reset()
@@ -298,6 +301,15 @@ func (proxy *PgProxy) ProxyClientConnection(ctx context.Context, errCh chan<- ba
 
 		proxy.dbConnection.SetWriteDeadline(time.Now().Add(network.DefaultNetworkTimeout))
 
+		// The statement of this extended query cycle has been rejected: as the database does after an error,
+		// discard everything up to Sync, which the database answers with ReadyForQuery.
+		if skipUntilSync {
+			if packet.messageType[0] != SyncMessageType {
+				continue
+			}
+			skipUntilSync = false
+		}
+
 		_, censorSpan := trace.StartSpan(packetSpanCtx, "censor")
 
 		// Massage the packet. This should not normally fail. If it does, the database will not receive the packet.
@@ -312,7 +324,9 @@ func (proxy *PgProxy) ProxyClientConnection(ctx context.Context, errCh chan<- ba
 		// If the packet has been rejected by AcraCensor, stop here and don't send it to the database.
 		// Also, craft and send the client an error so that they know their query has been rejected.
 		if censored {
-			err := proxy.sendClientError(base.AcraCensorBlockedThisQuery, logger)
+			// In the extended query protocol ReadyForQuery is the answer to Sync, not to Parse.
+			skipUntilSync = packet.IsParse()
+			err := proxy.sendClientError(base.AcraCensorBlockedThisQuery, !skipUntilSync, logger)
 			if err != nil {
 				errCh <- base.NewClientProxyError(err)
 				return
@@ -585,7 +599,7 @@ func (proxy *PgProxy) handleBindPacket(ctx context.Context, packet *PacketHandle
 	return false, nil
 }
 
-func (proxy *PgProxy) sendClientError(msg string, logger *log.Entry) error {
+func (proxy *PgProxy) sendClientError(msg string, readyForQuery bool, logger *log.Entry) error {
 	errorMessage, err := NewPgError(msg)
 	if err != nil {
 		logger.WithField(logging.FieldKeyEventCode, logging.EventCodeErrorCodingPostgresqlCantGenerateErrorPacket).
@@ -595,6 +609,9 @@ func (proxy *PgProxy) sendClientError(msg string, logger *log.Entry) error {
 	n, err := proxy.clientConnection.Write(errorMessage)
 	if err := base.CheckReadWrite(n, len(errorMessage), err); err != nil {
 		return err
+	}
+	if !readyForQuery {
+		return nil
 	}
 	n, err = proxy.clientConnection.Write(ReadyForQuery)
 	if err := base.CheckReadWrite(n, len(ReadyForQuery), err); err != nil {
@@ -755,7 +772,7 @@ func (proxy *PgProxy) ProxyDatabaseConnection(ctx context.Context, errCh chan<- 
 			// Massage the packet. This should not normally fail. If it does, the client will not receive the packet.
 			err := proxy.handleDatabasePacket(packetCtx, packetHandler, logger)
 			if decryptionError, ok := err.(*base.EncodingError); ok {
-				if err = proxy.sendClientError(decryptionError.Error(), logger); err != nil {
+				if err = proxy.sendClientError(decryptionError.Error(), true, logger); err != nil {
 					logger.WithField(logging.FieldKeyEventCode, logging.EventCodeErrorNetworkWrite).
 						WithError(err).Errorln("Can't send packet")
 					errCh <- base.NewDBProxyError(err)
